@@ -40,7 +40,7 @@ def cases(tier, seed):
                 out.append(dict(kind="all", cfg=dict(env="pdp_ruin_repair", n=n), s=rnd.randrange(10**6), warm=warm))
     # (b) sampler chains
     for n in ((5, 7, 10, 20) if q else (4, 5, 6, 7, 8, 10, 13, 20, 50)):
-        for k in (2, 3, 4):
+        for k in (2, 3, 4, 5, 6):
             if k > n - 2:
                 continue
             for r in range(6 if q else 30):
@@ -52,7 +52,7 @@ def cases(tier, seed):
     for n in ((6, 10, 20) if q else (5, 6, 8, 10, 20, 50)):
         for r in range(5 if q else 25):
             out.append(dict(kind="policy", policy="dact", cfg=dict(env="tsp_kopt", n=n, k=2), B=8, s=rnd.randrange(10**6), steps=12 if q else 40))
-            for k in (3, 4):
+            for k in (3, 4, 5, 6):
                 if k > n - 2:
                     continue
                 out.append(dict(kind="policy", policy="neuopt", cfg=dict(env="tsp_kopt", n=n, k=k), B=8, s=rnd.randrange(10**6), steps=12 if q else 40))
